@@ -150,7 +150,8 @@ theorem strcmp_eq (ct : CT) (hb : 0 < ct.bits) (a : Buf) (i : Nat) (b : Buf) (j 
     (hbt : Spec.Terminated b j) (hua : Spec.Units ct.bits a) (hub : Spec.Units ct.bits b) :
     strcmp ct a i b j = .ok (Spec.strcmp (Spec.key ct.bits ct.signedCmp) a i b j) := by
   unfold strcmp Spec.strcmp
-  rw [key_eq]
+  rw [cmp_key_eq ct hb hua hub _ _ (fun x hx => List.mem_of_mem_drop (mem_of_mem_upto0 hx))
+    (fun y hy => List.mem_of_mem_drop (mem_of_mem_upto0 hy))]
   exact strcmpLoop_spec ct a b (a.drop i) (b.drop j) i j (a.length + 1) rfl rfl ha hbt (drop_length_lt a i)
     (units_inj ct hb hua hub i j)
 
@@ -158,7 +159,8 @@ theorem strncmp_eq (ct : CT) (hb : 0 < ct.bits) (a : Buf) (i : Nat) (b : Buf) (j
     (hbt : Spec.ReadableN b j n) (hua : Spec.Units ct.bits a) (hub : Spec.Units ct.bits b) :
     strncmp ct a i b j n = .ok (Spec.strncmp (Spec.key ct.bits ct.signedCmp) a i b j n) := by
   unfold strncmp Spec.strncmp
-  rw [key_eq]
+  rw [cmp_key_eq ct hb hua hub _ _ (fun x hx => List.mem_of_mem_drop (List.mem_of_mem_take (mem_of_mem_upto0 hx)))
+    (fun y hy => List.mem_of_mem_drop (List.mem_of_mem_take (mem_of_mem_upto0 hy)))]
   exact strncmpLoop_spec ct a b n (a.drop i) (b.drop j) i j rfl rfl (readableN_drop ha) (readableN_drop hbt)
     (units_inj ct hb hua hub i j)
 
@@ -170,14 +172,16 @@ theorem strncmp_joint_eq (ct : CT) (hb : 0 < ct.bits) (a : Buf) (i : Nat) (b : B
     (h : Spec.cmpReadableN (a.drop i) (b.drop j) n = true) (hua : Spec.Units ct.bits a) (hub : Spec.Units ct.bits b) :
     strncmp ct a i b j n = .ok (Spec.strncmp (Spec.key ct.bits ct.signedCmp) a i b j n) := by
   unfold strncmp Spec.strncmp
-  rw [key_eq]
+  rw [cmp_key_eq ct hb hua hub _ _ (fun x hx => List.mem_of_mem_drop (List.mem_of_mem_take (mem_of_mem_upto0 hx)))
+    (fun y hy => List.mem_of_mem_drop (List.mem_of_mem_take (mem_of_mem_upto0 hy)))]
   exact strncmpLoop_joint_spec ct a b n (a.drop i) (b.drop j) i j rfl rfl h (units_inj ct hb hua hub i j)
 
 theorem memcmp_eq (ct : CT) (hb : 0 < ct.bits) (a : Buf) (i : Nat) (b : Buf) (j n : Nat) (ha : i + n ≤ a.length)
     (hbt : j + n ≤ b.length) (hua : Spec.Units ct.bits a) (hub : Spec.Units ct.bits b) :
     memcmp ct a i b j n = .ok (Spec.memcmp (Spec.key ct.bits ct.signedCmp) a i b j n) := by
   unfold memcmp Spec.memcmp
-  rw [key_eq]
+  rw [cmp_key_eq ct hb hua hub _ _ (fun x hx => List.mem_of_mem_drop (List.mem_of_mem_take hx))
+    (fun y hy => List.mem_of_mem_drop (List.mem_of_mem_take hy))]
   exact memcmpLoop_spec ct a b n (a.drop i) (b.drop j) i j rfl rfl (by simp; omega) (by simp; omega)
     (units_inj ct hb hua hub i j)
 
